@@ -16,6 +16,8 @@ impl BatchSender {
         &self,
         batch: Arc<ColumnBatch>,
     ) -> Result<(), mpsc::error::SendError<Arc<ColumnBatch>>> {
+        #[cfg(feature = "sim-hooks")]
+        crate::sim_hooks::gate("flow.send", String::new()).await;
         let rows = batch.len() as u64;
         match self.inner.send(batch).await {
             Ok(()) => {
